@@ -354,6 +354,7 @@ inline int sim_main(int argc, char **argv)
   std::map<std::string, std::uint64_t> probes;
   std::set<std::uint64_t> distinct;
   std::set<std::uint64_t> interleavings;
+  std::set<std::uint64_t> model_states; // distinct model states reached (capped)
   std::uint64_t executed = 0, nontrivial = 0, steps = 0, events = 0, enum_runs = 0, enum_plans = 0;
   unsigned violations = 0;
   std::vector<std::string> samples;
@@ -380,6 +381,8 @@ inline int sim_main(int argc, char **argv)
     events += ctx.events;
     if (ctx.interleaving != 0)
       interleavings.insert(ctx.interleaving);
+    if (model_states.size() < 3000000)
+      model_states.insert(ctx.states.begin(), ctx.states.end());
     if (hashes || i < hashes_below)
       std::printf("H %llu %016llx\n", static_cast<unsigned long long>(i),
                   static_cast<unsigned long long>(o.hash));
@@ -459,6 +462,7 @@ inline int sim_main(int argc, char **argv)
   s += ",\"distinct_sample_mod\":" + std::to_string(distinct_sample);
   s += ",\"steps\":" + std::to_string(steps);
   s += ",\"distinct_interleavings\":" + std::to_string(interleavings.size());
+  s += ",\"distinct_states\":" + std::to_string(model_states.size());
   s += ",\"events\":" + std::to_string(events);
   s += ",\"enum_plans\":" + std::to_string(enum_plans);
   s += ",\"enum_runs\":" + std::to_string(enum_runs);
